@@ -241,7 +241,7 @@ func main() {
 	var b bytes.Buffer
 	b.WriteString("(* GENERATED by translators/cmd/migrationtable from flows/definition/migrations/*.go, specdata/templates.json and\n" +
 		"   flows/definition/flow.go -- do not edit; regenerated on every run of bin/check C16 *)\n")
-	b.WriteString("From Coq Require Import List NArith String.\nImport ListNotations.\nOpen Scope string_scope.\n\n")
+	b.WriteString("From Coq Require Import List NArith String.\nImport ListNotations.\nLocal Open Scope string_scope.\n\n")
 	b.WriteString("(* registerMigration calls, in source order: version, name of the Go function *)\n")
 	b.WriteString("Definition registered : list ((N * N * N) * string) := [\n")
 	for i, r := range regs {
